@@ -178,6 +178,45 @@ fn outstanding() -> Vec<Value> {
         .collect()
 }
 
+/// Backtraces of all threads of this process (through gdb), reduced to raindb / harness frames.
+fn thread_stacks() -> Vec<String> {
+    if std::env::var("RDBMON_NO_GDB").is_ok() {
+        return vec![];
+    }
+    let pid = std::process::id().to_string();
+    let out = std::process::Command::new("timeout")
+        .args(["20", "gdb", "-p", &pid, "-batch", "-ex", "set pagination off", "-ex", "thread apply all bt 30"])
+        .stdin(std::process::Stdio::null())
+        .stderr(std::process::Stdio::null())
+        .output();
+    let text = match out {
+        Ok(o) => String::from_utf8_lossy(&o.stdout).to_string(),
+        Err(e) => return vec![format!("gdb unavailable: {e}")],
+    };
+    let mut lines = vec![];
+    for l in text.lines() {
+        // frame lines look like `#9  [0x… in ]function (args) at file:line`
+        let func = l
+            .split_whitespace()
+            .skip(1)
+            .find(|w| !w.starts_with("0x") && *w != "in")
+            .unwrap_or("");
+        let keep = l.starts_with("Thread ")
+            || func.starts_with("raindb::")
+            || func.starts_with("rdbmon::")
+            || func.starts_with("parking_lot::condvar")
+            || func.starts_with("std::sync::mpmc")
+            || func.starts_with("std::thread::sleep");
+        if keep {
+            lines.push(l.chars().take(220).collect());
+        }
+        if lines.len() > 160 {
+            break;
+        }
+    }
+    lines
+}
+
 /// Starts the watchdog thread: if no tick is seen for the stall limit while a case is active the
 /// process reports the stall and exits with status 3 (the driver restarts the shard).
 pub fn start_watchdog() {
@@ -202,7 +241,9 @@ pub fn start_watchdog() {
                     let overtime = total > CASE_LIMIT_MS.load(Ordering::Relaxed);
                     if stalled || overtime {
                         let panics = peek_panics();
+                        let stacks = thread_stacks();
                         emit(&json!({
+                            "stacks": stacks,
                             "t": if stalled { "hang" } else { "overtime" },
                             "case": idx,
                             "stalled_ms": stall,
